@@ -127,6 +127,27 @@ package requestf
 //@   ensures [C03] err == nil && prefixof(pre, buf.buf.bytes)
 //@   loop 0 invariant [C03] err == nil && st != nil && validB(buf) && prefixof(pre, buf.buf.bytes)
 //@   loop 1 invariant [C03] err == nil && st != nil && validB(buf) && prefixof(pre, buf.buf.bytes)
+// tag skeleton (derived from RequestF.tars by tools/gencontracts.py: writer_skeleton): every codec call carries the
+// tag and the wire type the IDL prescribes, also in the map bodies and the trailing members the prefix above leaves open
+//@   site ).Write#0 assert [C03] $2 == 1
+//@   site ).Write#1 assert [C03] $2 == 2
+//@   site ).Write#2 assert [C03] $2 == 3
+//@   site ).Write#3 assert [C03] $2 == 4
+//@   site ).Write#4 assert [C03] $2 == 5
+//@   site ).Write#5 assert [C03] $2 == 6
+//@   site ).Write#6 assert [C03] $1 == 13 && $2 == 7
+//@   site ).Write#7 assert [C03] $1 == 0 && $2 == 0
+//@   site ).Write#8 assert [C03] $2 == 0
+//@   site ).Write#10 assert [C03] $2 == 8
+//@   site ).Write#11 assert [C03] $1 == 8 && $2 == 9
+//@   site ).Write#12 assert [C03] $2 == 0
+//@   site ).Write#13 assert [C03] $2 == 0
+//@   site ).Write#14 assert [C03] $2 == 1
+//@   site ).Write#15 assert [C03] $1 == 8 && $2 == 10
+//@   site ).Write#16 assert [C03] $2 == 0
+//@   site ).Write#17 assert [C03] $2 == 0
+//@   site ).Write#18 assert [C03] $2 == 1
+//@   sites ).Write = 19
 //@   safety [C03]
 //
 //@ func (*ResponsePacket).WriteTo
@@ -139,6 +160,26 @@ package requestf
 //@   ensures [C03] err == nil && prefixof(pre, buf.buf.bytes)
 //@   loop 0 invariant [C03] err == nil && st != nil && validB(buf) && prefixof(pre, buf.buf.bytes)
 //@   loop 1 invariant [C03] err == nil && st != nil && validB(buf) && prefixof(pre, buf.buf.bytes)
+// tag skeleton (derived from RequestF.tars by tools/gencontracts.py: writer_skeleton): every codec call carries the
+// tag and the wire type the IDL prescribes, also in the map bodies and the trailing members the prefix above leaves open
+//@   site ).Write#0 assert [C03] $2 == 1
+//@   site ).Write#1 assert [C03] $2 == 2
+//@   site ).Write#2 assert [C03] $2 == 3
+//@   site ).Write#3 assert [C03] $2 == 4
+//@   site ).Write#4 assert [C03] $2 == 5
+//@   site ).Write#5 assert [C03] $1 == 13 && $2 == 6
+//@   site ).Write#6 assert [C03] $1 == 0 && $2 == 0
+//@   site ).Write#7 assert [C03] $2 == 0
+//@   site ).Write#9 assert [C03] $1 == 8 && $2 == 7
+//@   site ).Write#10 assert [C03] $2 == 0
+//@   site ).Write#11 assert [C03] $2 == 0
+//@   site ).Write#12 assert [C03] $2 == 1
+//@   site ).Write#13 assert [C03] $2 == 8
+//@   site ).Write#14 assert [C03] $1 == 8 && $2 == 9
+//@   site ).Write#15 assert [C03] $2 == 0
+//@   site ).Write#16 assert [C03] $2 == 0
+//@   site ).Write#17 assert [C03] $2 == 1
+//@   sites ).Write = 18
 //@   safety [C03]
 //
 // WriteBlock frames the struct as a nested field: StructBegin head under the given tag, the members, StructEnd head (tag 0).
